@@ -94,9 +94,70 @@ fn cold_start(seed: u64) {
     }
 }
 
+fn bit(file: u8, rank: u8) -> u64 {
+    1u64 << ((8 - rank) * 8 + file)
+}
+
+/// A position with more than fifty offered actions (no text is parsed: the state is put together
+/// from bitboards through the public constructors, exactly as the reader does): the long-list end
+/// of move generation, where buffers spill and fast paths for short lists no longer apply.
+fn wide_root() -> GameState {
+    // Gold: H b5, E d5, M f5, H h5, D a3, D e3, C g3, C c2, rabbits b1 d1 f1 h1 c7 e7 g7; Silver: r a8
+    let horses = bit(1, 5) | bit(7, 5);
+    let elephants = bit(3, 5);
+    let camels = bit(5, 5);
+    let dogs = bit(0, 3) | bit(4, 3);
+    let cats = bit(6, 3) | bit(2, 2);
+    let gold_rabbits = bit(1, 1) | bit(3, 1) | bit(5, 1) | bit(7, 1) | bit(2, 7) | bit(4, 7) | bit(6, 7);
+    let silver_rabbits = bit(0, 8);
+    let p1 = horses | elephants | camels | dogs | cats | gold_rabbits;
+    let pb = PieceBoard::new(p1, elephants, camels, horses, dogs, cats, gold_rabbits | silver_rabbits);
+    let hash = Zobrist::from_piece_board(pb.piece_board(), true, 0);
+    let history = List::new().append(hash);
+    GameState::new(true, 2, Phase::PlayPhase(PlayPhase::initial(hash, history)), pb, hash)
+}
+
+fn full_list(s: &GameState) -> Vec<String> {
+    s.valid_actions().iter().map(|a| a.to_string()).collect()
+}
+
+/// Three real threads list and expand one shared wide state at the same time, twice each, and
+/// apply a different action each; everything is compared with a private copy used sequentially.
+fn wide_phase(seed: u64) {
+    let shared = Arc::new(wide_root());
+    let private = wide_root();
+    let want = full_list(&private);
+    let want_norep: Vec<String> = private.valid_actions_no_rep().iter().map(|a| a.to_string()).collect();
+    assert!(want.len() > 48, "the wide root offers only {} actions", want.len());
+    let mut hs = vec![];
+    for t in 0..3u64 {
+        let st = shared.clone();
+        hs.push(thread::spawn(move || {
+            let a = full_list(&st);
+            let b: Vec<String> = st.valid_actions_no_rep().iter().map(|a| a.to_string()).collect();
+            let c = full_list(&st);
+            let va = st.valid_actions();
+            let k = ((seed as usize).wrapping_mul(31) + (t as usize) * 17) % va.len().max(1);
+            let child = st.take_action(&va[k.min(va.len() - 1)]);
+            (a, b, c, k, child.transposition_hash(), full_list(&child))
+        }));
+    }
+    for h in hs {
+        let (a, b, c, k, ch, cl) = h.join().unwrap();
+        assert_eq!(a, want, "wide root: a concurrent action list differs from sequential execution");
+        assert_eq!(b, want_norep, "wide root: a concurrent rule-only list differs from sequential execution");
+        assert_eq!(c, want, "wide root: a concurrent action list differs from sequential execution");
+        let va = private.valid_actions();
+        let child = private.take_action(&va[k]);
+        assert_eq!(child.transposition_hash(), ch, "wide root: a concurrent child differs from sequential execution");
+        assert_eq!(full_list(&child), cl, "wide root: a concurrent child's list differs from sequential execution");
+    }
+}
+
 fn main() {
     let seed: u64 = std::env::args().nth(1).map(|s| s.parse().unwrap()).unwrap_or(1);
     cold_start(seed);
+    wide_phase(seed);
     // the shared root is never queried before the threads start: the expected values are
     // computed on a separately rebuilt private copy
     let shared = Arc::new(root());
